@@ -214,17 +214,11 @@ func zzC07state(w int32) (*channelState, *zzConn, *zzVirtQueue) {
 	conn := &zzConn{}
 	q := &zzVirtQueue{}
 	q.wait = make(chan struct{}, 1)
-	s := &channelState{
-		id:             bin.Bin128{},
-		ctx:            &context{CancelContext: zzNewCtx(), conn: conn},
-		conn:           conn,
-		client:         true,
-		initWindow:     w,
-		sendWindowWait: make(chan struct{}, 1),
-		recvQueue:      q,
-	}
+	// built by the real constructor (so that anything it derives from its arguments is set), then
+	// given the length-only receive queue
+	s := newChannelState(conn, true, bin.Bin128{}, w)
 	s.opened.Store(true)
-	s.sender = newChanSender(s, conn)
+	s.recvQueue = q
 	return s, conn, q
 }
 
